@@ -56,7 +56,7 @@ CLAIMED.update({
 
 CLAIMED.update({
  "C04": dict(
-   text="Totality and determinism of decoding decided from the tables and the shape of amd/insts: the format table (mask/encoding consistency, overlap and specificity order, opcode fields) which makes format matching independent of map order and sort stability; the decode table of about 1000 rows evaluated from constant expressions (duplicates, field widths, VOP3b routing, dispatch coverage); every getOperand call site against the computed set of defined operand codes using an interval analysis of the code argument; per-format bounds of every buffer access; size accounting incl. the single literal dword shared by two literal operands and an opcode-specific size step for every mnemonic that carries a 32-bit constant; immutability of the decode tables on the decode path; register families of getOperand covered completely; the single-bit helper; a nil test before a lazily created decode table is dereferenced; destination fields that cannot hold constants; the key of every decode cache covering all arguments that select the bytes read (address and process); error handling at the three callers; every field extraction of the decode functions and the format table compared with the microcode formats of the ISA manuals transcribed as (format, field) -> (dword, bit range) tables; agreement of the mnemonics of the two encodings of each vector instruction (VOP2/VOP1/VOPC row versus its VOP3 row); the bit-extraction helpers decided by bit provenance for every constant range used. Every format decoder applies the table's 64-bit widths to the operands it fills; each table row agrees with its own mnemonic on operand widths and, for the VOP3b carry family, operand presence; the VOP3b rows are exactly the ISA's list; the complete field list of each format is covered by the decoder's extractions; scalar register operands built from raw fields stay inside s0..s101. The inverse property decode(encode(d)) = d is value level and not decided.",
+   text="Totality and determinism of decoding decided from the tables and the shape of amd/insts: the format table (mask/encoding consistency, overlap and specificity order, opcode fields) which makes format matching independent of map order and sort stability; the decode table of about 1000 rows evaluated from constant expressions (duplicates, field widths, VOP3b routing, dispatch coverage); every getOperand call site against the computed set of defined operand codes using an interval analysis of the code argument; per-format bounds of every buffer access; size accounting incl. the single literal dword shared by two literal operands and an opcode-specific size step for every mnemonic that carries a 32-bit constant; immutability of the decode tables on the decode path; register families of getOperand covered completely; the single-bit helper; a nil test before a lazily created decode table is dereferenced; destination fields that cannot hold constants; the key of every decode cache covering all arguments that select the bytes read (address and process); error handling at the three callers; every field extraction of the decode functions and the format table compared with the microcode formats of the ISA manuals transcribed as (format, field) -> (dword, bit range) tables; agreement of the mnemonics of the two encodings of each vector instruction (VOP2/VOP1/VOPC row versus its VOP3 row); the bit-extraction helpers decided by bit provenance for every constant range used. Every format decoder applies the table's 64-bit widths to the operands it fills; each table row agrees with its own mnemonic on operand widths and, for the VOP3b carry family, operand presence; the VOP3b rows are exactly the ISA's list; the complete field list of each format is covered by the decoder's extractions; scalar register operands built from raw fields stay inside s0..s101; the destination register file follows the mnemonic (decided per opcode on the SSA form); FLAT, SMEM and SOPP opcode numbers and the operands of the DS instructions agree with transcribed tables. The inverse property decode(encode(d)) = d is value level and not decided.",
    ref="4/C04", technique="constant-table evaluation from the type-checked syntax (TABLE), interval analysis on SSA (INTERVAL), dominance cuts (GUARD), decision-table evaluation of getOperand's switch",
    note="opcode numbers versus the ISA manuals are not compared (only the two encodings of one instruction with each other); the transcribed field layouts are part of the trusted base; ten genuine defects (dropped getOperand errors, unguarded buf[:4], literal dword counted twice in SOP2/SOPC, ttmp11 rejected, GDS bit taken from bit 4, s_setreg_imm32_b32 sized 4 bytes, constants accepted as destinations, v_madak/v_madmk with a literal sized 12 bytes, emulator decode cache keyed by address only, SDWA S0 flag read from the wrong bit) found and repaired by fix: commits"),
 })
@@ -77,7 +77,7 @@ CLAIMED.update({
 
 CLAIMED.update({
  "C03": dict(
-   text="ISA rules that are uniform across opcodes and visible in the code shape, for both ALUs and all paths: dispatch integrity of every opcode switch (one handler per case, panicking default, listed functional no-ops only), ALL-OR-NONE of condition-code writes in every handler, shift-amount intervals in every handler of a shift instruction (handlers tied to instruction names through decode table, dispatch switch and callee), destination-only operand writes and PC/EXEC writers restricted by instruction name, carry predicates of carry-in instructions evaluated in 64 bits, every float-to-integer conversion of an operand value reached only after range tests on the floating-point value (and no clamp that the operand's type makes dead), no result variable left at its zero value by an open if/else-if chain; every compare handler decided exactly on the ordering domain {less, equal, greater, unordered} against the truth table its mnemonic prescribes, with kind / signedness / width of the compared values; LDS handlers address ADDR plus their (scaled) offset field; bitwise handlers decided exactly by per-bit truth tables; operand selection of integer min/max, polarity of cndmask/cselect/cmov and of conditional branches with their target formula, operand order of sub/subrev and shift/shiftrev pairs; sources read before destinations are written; bits 32..63 of a raw operand never decide the result of a 32-bit instruction; SCC of signed add/sub from the signed overflow condition; IEEE bit patterns never used as numbers; float min / max decided on ranks and NaN operands; the SDWA select helpers decided bit by bit (origin of every result bit for every select constant and dst_unused mode) and SDWA-encoded instructions never executed as plain ones; VOP3 abs / neg modifiers applied to every data source of the instructions that accept them; every decoded field of an instruction consulted by execution or exempt with a reason; no dispatch case without a decode row; no ALU helper ignoring a parameter. One handler serves only mnemonics of one operand format and never both an IEEE instruction and its legacy form; inline float constants have the operand's width in both register stores; no carry test compares against a wrapping unsigned difference (interval evaluation); lane masks are accumulated from zero; the unsigned add/sub family contains no signed ordering test; float-to-int conversions are dominated by a NaN test and clamp to the type's bound; a handler that copies its single source serves a move; SOPK immediates are widened as their type says (bit provenance of the handler's expressions). Bit-exact arithmetic conformance needs an executable ISA transcription and is not decided.",
+   text="ISA rules that are uniform across opcodes and visible in the code shape, for both ALUs and all paths: dispatch integrity of every opcode switch (one handler per case, panicking default, listed functional no-ops only), ALL-OR-NONE of condition-code writes in every handler, shift-amount intervals in every handler of a shift instruction (handlers tied to instruction names through decode table, dispatch switch and callee), destination-only operand writes and PC/EXEC writers restricted by instruction name, carry predicates of carry-in instructions evaluated in 64 bits, every float-to-integer conversion of an operand value reached only after range tests on the floating-point value (and no clamp that the operand's type makes dead), no result variable left at its zero value by an open if/else-if chain; every compare handler decided exactly on the ordering domain {less, equal, greater, unordered} against the truth table its mnemonic prescribes, with kind / signedness / width of the compared values; LDS handlers address ADDR plus their (scaled) offset field; bitwise handlers decided exactly by per-bit truth tables; operand selection of integer min/max, polarity of cndmask/cselect/cmov and of conditional branches with their target formula, operand order of sub/subrev and shift/shiftrev pairs; sources read before destinations are written; bits 32..63 of a raw operand never decide the result of a 32-bit instruction; SCC of signed add/sub from the signed overflow condition; IEEE bit patterns never used as numbers; float min / max decided on ranks and NaN operands; the SDWA select helpers decided bit by bit (origin of every result bit for every select constant and dst_unused mode) and SDWA-encoded instructions never executed as plain ones; VOP3 abs / neg modifiers applied to every data source of the instructions that accept them; every decoded field of an instruction consulted by execution or exempt with a reason; no dispatch case without a decode row; no ALU helper ignoring a parameter. One handler serves only mnemonics of one operand format and never both an IEEE instruction and its legacy form; inline float constants have the operand's width in both register stores; no carry test compares against a wrapping unsigned difference (interval evaluation); lane masks are accumulated from zero; the unsigned add/sub family contains no signed ordering test; float-to-int conversions are dominated by a NaN test and clamp to the type's bound; a handler that copies its single source serves a move; SOPK immediates are widened as their type says (bit provenance of the handler's expressions). In 32-bit handlers the upper half of a raw 64-bit source is inert; carry addends and the sources of the unsigned add/sub family are reduced to 32 bits; the median-of-three helpers return the median on every weak ordering. Bit-exact arithmetic conformance needs an executable ISA transcription and is not decided.",
    ref="4/C03", technique="constant-table evaluation (decode table and dispatch switches), must-pass path analysis (ALL-OR-NONE), interval analysis on SSA (INTERVAL), who-may-write, finite-domain evaluation of comparison skeletons (ORDER-DOMAIN), bit-provenance evaluation of field helpers (BITPROV), value provenance of addresses",
    note="arithmetic, rounding, saturation and comparison semantics of individual opcodes are not decided; defect families found and repaired by fix: commits: one-sided SCC, unmasked shifts, v_cvt_i32_f32 saturation tested after conversion, v_div_scale_f64 default result and denormal classification, compare handlers (lg/nlg NaN, u32 width, CDNA3 ge_f32_e64), ds_read_b64 offset, 20 handlers of 32-bit instructions reading 64 operand bits, s_addc_u32 carry, s_cmpk compares, float min/max with a NaN operand, SDWA dst_unused and SDWA add, SDWA silently ignored by 36 VOP2 handlers, v_cndmask_b32_e64 / v_div_scale ignoring abs and neg, clamp and GDS bits dropped, CDNA3 v_div_scale_f64 filed under the wrong opcode; known findings pinned by upstream tests: GCN3 s_add_i32 SCC, v_div_fixup_f64 using bit patterns as numbers (14 sites)"),
 })
